@@ -489,7 +489,7 @@ theorem checkConsistency_true_iff (s : Sequence) :
       | true =>
         simp only [Bool.not_true, Bool.false_eq_true, if_false, true_and]
         cases (Dict.vals s.data).mapM Entry.channels with
-        | error e => by_cases he : e = .consistency <;> simp [he]
+        | error e => by_cases he : e = .consistency ∨ e = .key <;> simp [he]
         | ok chans =>
           simp only [Except.ok.injEq, exists_eq_left']
           cases allEqLast (chans.map channelListSorter) <;> simp
